@@ -39,6 +39,10 @@ def declare(P, config, with_optional=False, with_worker=False):
         ps.ObjectiveMinimizeMakespan()
     elif config == "incremental_max":
         ps.ObjectiveTasksStartLatest()
+    elif config in ("incremental_maxiter1", "incremental_maxiter2"):
+        # the iteration limit is a rarely used exit of the optimisation loop
+        ps.ObjectiveMinimizeMakespan()
+        cfg["max_iter"] = int(config[-1])
     elif config == "optimize":
         ps.ObjectiveMinimizeMakespan()
         cfg["optimizer"] = "optimize"
@@ -250,6 +254,10 @@ def shapes(tier):
     for seq in [("solve",), ("solve", "solve"), ("solve", "another"), ("initialize", "solve"), ("initialize", "initialize"), ("solve", "initialize"),
                 ("solve", "initialize", "solve")]:
         out.append(session_shape(PROP, seq, "multi", max_checks=4))
+    for config in ("incremental_maxiter1", "incremental_maxiter2"):
+        for seq in [("solve",), ("solve", "solve"), ("solve", "another"), ("solve", "export"), ("solve", "another_var"), ("solve", "solve", "solve"),
+                    ("solve", "another", "solve")]:
+            out.append(session_shape(PROP, seq, config, max_checks=5))
     return out
 
 
